@@ -439,6 +439,7 @@ def boundary_programs(tier):
                 'END TYPE\nTYPE b1\np AS LONG\nq AS a1\nr AS a1\nw AS DOUBLE\n'
                 'END TYPE\nDIM v AS b1, arr(1 TO 3) AS b1\nv.r.y = "s"\n'
                 'arr(2).w = 1.5\nPRINT v.r.y; arr(2).w\n'))
+    out.append(('literal_40000', 'PRINT LEN("' + 'y' * 40000 + '")\n'))
     if tier == 'thorough':
         out.append(('literal_65535', 'PRINT LEN("' + 'x' * 65535 + '")\n'))
         out.append(('data_33000', 'READ a$\nPRINT a$\nDATA ' + ','.join(
